@@ -1,4 +1,6 @@
 import RV.C11.Lemmas
+import RV.C11.N3Lemmas
+import RV.C11.ApiLemmas
 /-
   C11 — "Property paths denote the relation SPARQL defines, for every binding of the ends."
 
@@ -436,6 +438,111 @@ theorem path_correct_as_built_witness : ¬ Statement_path_correct_as_built := by
 theorem neg_repair_correct (g : Graph) (fw bw : List Term) :
     Correct (nodes g) (negEvalFixed g fw bw) (negRel g fw bw) := negFixed_correct g fw bw
 
+/-! ### Known finding C11-F5, characterised: exactly the sets with an inverse member are affected -/
+
+/-- `NegatedPath.eval` computes the specified negated property set on every graph **iff** the set has no inverse
+    member: `!(p|…)` and `!()` are right on all graphs, every `!(…|^q|…)` is wrong on some graph. -/
+def Statement_neg_affected_iff : Prop :=
+  ∀ (fw bw : List Term), (∀ g : Graph, negRelImpl g fw bw = negRel g fw bw) ↔ bw = []
+
+theorem neg_affected_iff : Statement_neg_affected_iff := by
+  intro fw bw
+  constructor
+  · intro h
+    cases bw with
+    | nil => rfl
+    | cons b bs =>
+      have hw := negRelImpl_ne_of_inverse fw b bs
+      rw [h] at hw
+      exact absurd hw.1 hw.2
+  · rintro rfl g
+    exact negRelImpl_nil g fw
+
+/-- the same in terms of what is yielded: for a set with an inverse member there is a graph (one triple `0 q 1`
+    with a predicate `q` outside the set) on which `?s !(…) ?o` must answer `(1, 0)` and `NegatedPath.eval` does not -/
+theorem neg_affected_answer (fw : List Term) (b : Term) (bs : List Term) :
+    ∃ g : Graph, rel g (.neg fw (b :: bs)) 1 0 ∧ (1, 0) ∉ evalPath g (.neg fw (b :: bs)) none none := by
+  refine ⟨[(0, freshPred (fw ++ b :: bs), 1)], ?_, ?_⟩
+  · rw [rel]; exact (negRelImpl_ne_of_inverse fw b bs).1
+  · intro h
+    have := (path_computes _ _ _ _ _ _).mp h
+    rw [relC] at this
+    exact (negRelImpl_ne_of_inverse fw b bs).2 this.1
+
+example : evalPath [(0, freshPred [10, 11], 1)] (.neg [10] [11]) none none = [(0, 1)] := by decide
+
+/-! ### Round g — the syntax tie: `Path.n3()` text, read back as SPARQL and translated
+
+`n3` (N3.lean) is the writer of rdflib/paths.py, `readPath` a recursive-descent reader of SPARQL 1.1 grammar rules [88]–[96]
+producing the parser's tree, `translate` the model of `translatePath`; `reparse p = (readPath (n3 p)).map translate` is the
+path object a query gets when the user splices `p.n3()` into its text. -/
+
+/-- the text `n3()` writes for `p` is in SPARQL's grammar: no modifier on anything but a primary (`p*+`, `(^p)*` — which is
+    written `^p*`), no `^` on a `^` (`^^p`), no empty alternative; single-member sequences / alternatives are transparent -/
+def Path.n3Readable (p : Path) : Bool := lvl p != .bad
+
+/-- Splicing `p.n3()` into a query gives a path that denotes what `p` denotes. -/
+def Statement_path_n3_roundtrip : Prop :=
+  ∀ p : Path, ∃ q, reparse p = some q ∧ ∀ g : Graph, rel g q = rel g p
+
+mutual
+/-- dropping single-member sequences / alternatives and splicing parenthesised groups does not change the relation -/
+theorem norm_rel (g : Graph) : ∀ p : Path, rel g (norm p) = rel g p
+  | .iri p => by rw [norm]
+  | .neg fw bw => by rw [norm]
+  | .inv x => by rw [norm, rel, rel, norm_rel g x]
+  | .mul x m => by rw [norm, rel, rel, norm_rel g x]
+  | .seq a [] => by rw [norm, norm_rel g a, rel, relList, compList]
+  | .seq a (b :: bs) => by
+    rw [norm, rel_mkSeq, relList, norm_rel g a, norm_rel g b, normList_rel g bs, rel, relList]
+  | .alt [] => by rw [norm]
+  | .alt [a] => by rw [norm, norm_rel g a, rel, relList, relList, unionList_singleton]
+  | .alt (a :: b :: cs) => by
+    rw [norm, rel_mkAlt, relList, relList, norm_rel g a, norm_rel g b, normList_rel g cs, rel, relList, relList]
+theorem normList_rel (g : Graph) : ∀ ps : List Path, relList g (normList ps) = relList g ps
+  | [] => by rw [normList]
+  | p :: ps => by rw [normList, relList, relList, norm_rel g p, normList_rel g ps]
+end
+
+/-- For every path whose `n3()` text is in the grammar (any depth): the reader accepts the text with the fuel it is
+    given, `translatePath` rebuilds exactly `norm p` (the same tree up to single-member wrappers and the constructors'
+    splicing), and that path denotes the relation of `p`. -/
+theorem path_n3_roundtrip_partial :
+    ∀ p : Path, p.n3Readable = true → reparse p = some (norm p) ∧ ∀ g : Graph, rel g (norm p) = rel g p := by
+  intro p h
+  have hl : lvl p ≠ .bad := by simpa [Path.n3Readable] using h
+  obtain ⟨t, h1, h2⟩ := read_n3 p hl
+  exact ⟨by rw [reparse, h1, Option.map_some, h2], fun g => norm_rel g p⟩
+
+/-- The code falsifies the full statement: `MulPath(MulPath(p, '*'), '+').n3()` is `<p>*+`, which is not a SPARQL path. -/
+theorem path_n3_roundtrip_witness : ¬ Statement_path_n3_roundtrip := by
+  intro h
+  obtain ⟨q, hq, _⟩ := h (.mul (.mul (.iri 10) .zeroOrMore) .oneOrMore)
+  have : (reparse (.mul (.mul (.iri 10) .zeroOrMore) .oneOrMore)).isNone = true := by decide
+  rw [hq] at this
+  cases this
+
+/-- … and evaluating that query text yields exactly the pairs of the relation `p` denotes (all four bindings), as far as
+    `NegatedPath.eval` is right (C11-F5). -/
+theorem n3_query_same_partial :
+    ∀ (g : Graph) (p : Path), p.n3Readable = true → (norm p).noInvNeg = true → ∀ (s o : Option Term) (x y : Term),
+      (∃ q, reparse p = some q ∧ ((x, y) ∈ evalPath g q s o ↔
+        rel g p x y ∧ (∀ a, s = some a → x = a) ∧ (∀ b, o = some b → y = b) ∧
+          (s = none → o = none → x ∈ nodes g ∧ y ∈ nodes g))) := by
+  intro g p h hn s o x y
+  refine ⟨norm p, (path_n3_roundtrip_partial p h).1, ?_⟩
+  rw [← norm_rel g p]
+  exact path_correct_partial g (norm p) hn s o x y
+
+-- `(p/(q|^r))*` is written `( p / ( q | ^ r ) ) *`; `(^p)*` is written `^ p *` and read back as `^(p*)` (same relation);
+-- `^^p` and the empty alternative have no readable text
+example : n3 (.mul (.seq (.iri 10) [.alt [.iri 11, .inv (.iri 12)]]) .zeroOrMore) =
+    [.lp, .iri 10, .slash, .lp, .iri 11, .bar, .hat, .iri 12, .rp, .rp, .mod .zeroOrMore] := by decide
+example : Path.n3Readable (.mul (.seq (.iri 10) [.alt [.iri 11, .inv (.iri 12)]]) .zeroOrMore) = true := by decide
+example : (reparse (.mul (.inv (.iri 10)) .zeroOrMore)).isSome = true ∧
+    Path.n3Readable (.mul (.inv (.iri 10)) .zeroOrMore) = false := by decide
+example : (reparse (.inv (.inv (.iri 10)))).isNone = true ∧ (reparse (.seq (.iri 10) [.alt []])).isNone = true := by decide
+
 /-! ### Non-vacuity: cyclic graph (2-cycle, self-loop, 3-cycle), nested closures, all bindings -/
 
 /-- 2-cycle 1⇄2 on p=10, self-loop on 3, 3-cycle 4→5→6→4 on q=11, edge 2 -q-> 4 -/
@@ -459,6 +566,131 @@ example : build (.seq (.seq (.iri 10) [.iri 11]) [.seq (.iri 10) [.iri 10]]) =
 example : translate (.altS (.seqS (.elt (.altS (.seqS (.elt (.iri 10) none) [.invS (.elt (.iri 11) none)]) []) (some .zeroOrMore)) [])
       [.seqS (.elt (.nps [10] [12]) none) []]) =
     .alt [.mul (.seq (.iri 10) [.inv (.iri 11)]) .zeroOrMore, .neg [10] [12]] := rfl
+
+/-! ### Round g — the Graph API with a path as predicate (`Graph.triples` dispatch, `in`, `objects` / `subjects` /
+`subject_objects` with `unique=`, list-valued ends, `Graph.value`) -/
+
+/-- Every entry point answers with exactly the relation the code computes for the path (`relC`; the specified one
+    unless C11-F5 applies), whatever `unique` is. -/
+def Statement_api_dispatch : Prop :=
+  ∀ (g : Graph) (p : Path),
+    (∀ a b, gContains g p a b = true ↔ relC g p a b) ∧
+    (∀ a u y, y ∈ gObjects g p (some a) u ↔ relC g p a y) ∧
+    (∀ b u x, x ∈ gSubjects g p (some b) u ↔ relC g p x b) ∧
+    (∀ u x y, (x, y) ∈ gSubjectObjects g p u ↔ relC g p x y ∧ x ∈ nodes g ∧ y ∈ nodes g) ∧
+    (∀ ss u y, y ∈ gObjectsOfList g p ss u ↔ ∃ a ∈ ss, relC g p a y) ∧
+    (∀ os u x, x ∈ gSubjectsOfList g p os u ↔ ∃ b ∈ os, relC g p x b) ∧
+    (∀ a, (gValueObj g p a = none ↔ ∀ y, ¬ relC g p a y) ∧ ∀ y, gValueObj g p a = some y → relC g p a y) ∧
+    (∀ b, (gValueSubj g p b = none ↔ ∀ x, ¬ relC g p x b) ∧ ∀ x, gValueSubj g p b = some x → relC g p x b)
+
+/-- `unique=True` answers are duplicate-free for every path (not only closures). -/
+def Statement_api_unique_nodup : Prop :=
+  ∀ (g : Graph) (p : Path),
+    (∀ s, (gObjects g p s true).Nodup) ∧ (∀ o, (gSubjects g p o true).Nodup) ∧ (gSubjectObjects g p true).Nodup
+
+theorem mem_gObjects (g : Graph) (p : Path) (a : Term) (u : Bool) (y : Term) :
+    y ∈ gObjects g p (some a) u ↔ relC g p a y := by
+  have key : y ∈ (gTriples g p (some a) none).map (·.2) ↔ relC g p a y := by
+    simp only [List.mem_map, gTriples]
+    constructor
+    · rintro ⟨⟨x, y'⟩, h, rfl⟩
+      obtain ⟨hr, hs, _⟩ := (path_computes g p _ _ x y').mp h
+      exact (hs a rfl) ▸ hr
+    · intro hr
+      exact ⟨(a, y), (path_computes g p _ _ a y).mpr ⟨hr, by simp, by simp, by simp⟩, rfl⟩
+  cases u <;> simp only [gObjects, mem_uniq_nil, key, if_true, Bool.false_eq_true, if_false]
+
+theorem mem_gSubjects (g : Graph) (p : Path) (b : Term) (u : Bool) (x : Term) :
+    x ∈ gSubjects g p (some b) u ↔ relC g p x b := by
+  have key : x ∈ (gTriples g p none (some b)).map (·.1) ↔ relC g p x b := by
+    simp only [List.mem_map, gTriples]
+    constructor
+    · rintro ⟨⟨x', y⟩, h, rfl⟩
+      obtain ⟨hr, _, ho, _⟩ := (path_computes g p _ _ x' y).mp h
+      exact (ho b rfl) ▸ hr
+    · intro hr
+      exact ⟨(x, b), (path_computes g p _ _ x b).mpr ⟨hr, by simp, by simp, by simp⟩, rfl⟩
+  cases u <;> simp only [gSubjects, mem_uniq_nil, key, if_true, Bool.false_eq_true, if_false]
+
+theorem api_dispatch : Statement_api_dispatch := by
+  intro g p
+  refine ⟨?_, mem_gObjects g p, mem_gSubjects g p, ?_, ?_, ?_, ?_, ?_⟩
+  · intro a b
+    have h := path_computes g p (some a) (some b)
+    simp only [gContains, gTriples]
+    constructor
+    · intro hc
+      cases hl : evalPath g p (some a) (some b) with
+      | nil => rw [hl] at hc; cases hc
+      | cons r rs =>
+        obtain ⟨x, y⟩ := r
+        obtain ⟨hr, hs, ho, _⟩ := (h x y).mp (hl ▸ List.mem_cons_self ..)
+        exact (hs a rfl) ▸ (ho b rfl) ▸ hr
+    · intro hr
+      have := (h a b).mpr ⟨hr, by simp, by simp, by simp⟩
+      cases hl : evalPath g p (some a) (some b) with
+      | nil => rw [hl] at this; cases this
+      | cons r rs => rfl
+  · intro u x y
+    have h := path_computes g p none none x y
+    cases u <;> simp only [gSubjectObjects, gTriples, mem_uniq_nil, h, if_true, Bool.false_eq_true, if_false] <;> simp
+  · intro ss u y
+    simp only [gObjectsOfList, List.mem_flatMap, mem_gObjects]
+  · intro os u x
+    simp only [gSubjectsOfList, List.mem_flatMap, mem_gSubjects]
+  · intro a
+    refine ⟨?_, fun y h => (mem_gObjects g p a false y).mp (mem_of_head? h)⟩
+    rw [gValueObj, head?_eq_none_iff']
+    exact forall_congr' fun y => not_congr (mem_gObjects g p a false y)
+  · intro b
+    refine ⟨?_, fun x h => (mem_gSubjects g p b false x).mp (mem_of_head? h)⟩
+    rw [gValueSubj, head?_eq_none_iff']
+    exact forall_congr' fun x => not_congr (mem_gSubjects g p b false x)
+
+theorem api_unique_nodup : Statement_api_unique_nodup := by
+  intro g p
+  refine ⟨fun s => ?_, fun o => ?_, ?_⟩
+  · simp only [gObjects, if_true]; exact nodup_uniq _ _
+  · simp only [gSubjects, if_true]; exact nodup_uniq _ _
+  · simp only [gSubjectObjects, if_true]; exact nodup_uniq _ _
+
+/-- the same against the *specified* relation, for every path without an inverse member in a negated set (C11-F5) -/
+theorem api_dispatch_correct_partial (g : Graph) (p : Path) (h : p.noInvNeg = true) :
+    (∀ a b, gContains g p a b = true ↔ rel g p a b) ∧
+    (∀ a u y, y ∈ gObjects g p (some a) u ↔ rel g p a y) ∧
+    (∀ b u x, x ∈ gSubjects g p (some b) u ↔ rel g p x b) ∧
+    (∀ u x y, (x, y) ∈ gSubjectObjects g p u ↔ rel g p x y ∧ x ∈ nodes g ∧ y ∈ nodes g) := by
+  have := api_dispatch g p
+  rw [relC_eq_rel g p h] at this
+  exact ⟨this.1, this.2.1, this.2.2.1, this.2.2.2.1⟩
+
+example : gContains exG exP 1 6 = true ∧ gObjects exG (.seq (.iri 10) [.inv (.iri 10)]) (some 1) false = [1] ∧
+    gObjects exG (.alt [.iri 10, .inv (.iri 10)]) (some 1) false = [2, 2] ∧
+    gObjects exG (.alt [.iri 10, .inv (.iri 10)]) (some 1) true = [2] ∧ gValueObj exG exP 9 = none := by decide
+
+/-! ### Round g — the public `first` flag of `MulPath.eval` -/
+
+/-- `first=True` (the default, what `Graph.triples` uses) is the evaluation above; `first=False` with an end given yields
+    exactly the pairs joined by one or more steps (`?`: exactly one step) — the zero-length pair only if a cycle returns —
+    still duplicate-free; with both ends free the flag changes nothing. -/
+def Statement_mul_first_flag : Prop :=
+  ∀ (g : Graph) (p : Path) (m : Mod) (s o : Option Term),
+    mulEvalF g (evalPath g p) m true s o = evalPath g (.mul p m) s o ∧
+    (mulEvalF g (evalPath g p) m false s o).Nodup ∧
+    ∀ x y, (x, y) ∈ mulEvalF g (evalPath g p) m false s o ↔
+      (if s = none ∧ o = none then closure m (relC g p) x y
+       else (if m.more = true then TransGen (relC g p) x y else relC g p x y)) ∧
+      (∀ a, s = some a → x = a) ∧ (∀ b, o = some b → y = b) ∧ (s = none → o = none → x ∈ nodes g ∧ y ∈ nodes g)
+
+theorem mul_first_flag : Statement_mul_first_flag := by
+  intro g p m s o
+  refine ⟨by rw [mulEvalF_true, evalPath], ?_, fun x y => mulF_false_correct (evalPath_computes g p) (relC_iso g p) m s o x y⟩
+  simp only [mulEvalF, Bool.and_false, Bool.false_eq_true, if_false, List.nil_append]
+  exact nodup_dedupInto _ _
+
+example : mulEvalF exG (evalPath exG (.iri 10)) .zeroOrMore false (some 1) none = [(1, 2), (1, 1)] ∧
+    mulEvalF exG (evalPath exG (.iri 11)) .zeroOrMore false (some 2) none = [(2, 4), (2, 5), (2, 6)] ∧
+    mulEvalF exG (evalPath exG (.iri 10)) .zeroOrOne false none (some 9) = [] := by decide
 
 /-! ### The repaired defects of the pinned code (before the `fix:` commits now on /repo main), kept as
     regression witnesses.  Each definition is the pre-fix generator; each theorem shows on a
